@@ -259,11 +259,11 @@ class Ether:
 # ------------------------------------------------------------------------------------------
 
 
-def mk_cmd(kind, idx):
+def mk_cmd(kind, idx, src="18:000730"):
     from ramses_tx.command import Command
 
     if kind == "RQ":  # a reply is due
-        return Command(f"RQ --- 18:000730 {CTL} --:------ 30C9 001 {idx:02X}")
+        return Command(f"RQ --- {src} {CTL} --:------ 30C9 001 {idx:02X}")
     if kind == "W":  # a reply (I) is due
         return Command(f" W --- 18:000730 {CTL} --:------ 2309 003 {idx:02X}07D0")
     if kind == "I":  # no reply is ever due: echo only
@@ -356,7 +356,7 @@ def run_episode(env, cfg):
     prios = cfg.get("priorities")
     callers = []
     for i in range(ncmd):
-        cmd = mk_cmd(kinds[i], 0 if cfg.get("twins") else i)
+        cmd = mk_cmd(kinds[i], 0 if cfg.get("twins") else i, **({"src": "04:056789"} if cfg.get("impersonate") else {}))
         ether.cmds.setdefault(str(cmd), i)
         ether.cmds.setdefault(cmd._frame, i)
         T = cfg.get("timeout", 20.0)
@@ -543,6 +543,15 @@ def oracle_c07(env, cfg, obs):
                 env.check(False, "C07:reply-awaited-but-echo-returned", info=str(o))
         # bounded time: min(timeout, 20) from the call
         limit = env.min_(c["T"], 20)
+        if cfg.get("impersonate"):
+            # the mandatory impersonation notice goes out first (through the same QoS): the caller's clock
+            # starts when it is done, i.e. at the first transmission of the command itself
+            ws_i = [t for (t, ci, _) in obs["writes"] if ci == i]
+            if ws_i:
+                env.check(c["t_done"] - ws_i[0] <= limit + TIME_EPS, "C07:within-timeout")
+            else:
+                env.check(o[0] == "err", "C07:notice-failed-so-the-call-fails", info=str(o))
+            continue
         if cfg.get("latency"):
             limit = limit + LATENCY  # a timer that shares a late loop iteration fires late by at most the modelled latency
         env.check(c["t_done"] - c["t_start"] <= limit + TIME_EPS, "C07:within-timeout")
@@ -709,6 +718,8 @@ def configs(prop, tier):
     out.append(("two[r=1,prio=sym]", dict(ncmd=2, max_retries=1, wait_for_reply=True, priorities="sym", check_order=True, deliveries=2, probe=True)))
     out.append(("two[r=0,w=False,stagger]", dict(ncmd=2, max_retries=0, wait_for_reply=False, stagger=2, deliveries=2, probe=True)))
     out.append(("three[r=0,prio=sym]", dict(ncmd=3, max_retries=0, wait_for_reply=False, priorities="sym", check_order=True, deliveries=2 if not thorough else 3, probe=True)))
+    # a command sent in another device's name: the impersonation notice (a puzzle packet) goes out first
+    out.append(("one[impersonate,r=1]", dict(max_retries=1, wait_for_reply=True, impersonate=True, deliveries=3, probe=True)))
     # a queued caller timing out while another command is in flight; then the probes
     out.append(("two[r=1,T=sym]", dict(ncmd=2, max_retries=1, wait_for_reply=True, timeout=[20.0, "sym"], deliveries=2, probe=True)))
     # two callers, the transport goes away while one is still queued
@@ -787,7 +798,6 @@ ASSUMPTIONS = [
     "two timers due at exactly the same instant run in creation order (asyncio's heap gives no stronger guarantee)",
     "loop latency (lat[...] queries): a timer due within 10 ms after the one being run may - solver's choice - run in the same loop iteration, before the callbacks the first deferred with call_soon",
 ]
-OUTSIDE = ["more than 3 concurrent callers / the 32-slot buffer overflow", "real threads (the threading.Lock is single-threaded here)", "dt.now() ties within one microsecond",
-           "the impersonation notice (needs Command._puzzle's wall-clock payload)"]
+OUTSIDE = ["more than 3 concurrent callers / the 32-slot buffer overflow", "real threads (the threading.Lock is single-threaded here)", "dt.now() ties within one microsecond"]
 BOUNDS = {"quick": "1 command x max_retries {0,1,3,5} x wait_for_reply {F,T,None} x QoS mode; k=2 deliveries; 2-3 concurrent callers; one fault per episode",
           "thorough": "k=3 deliveries, symbolic caller timeouts with 2 callers, 2 write failures, disconnect with 2 callers"}
